@@ -962,42 +962,67 @@ theorem pushSem_obs (T : Tokenizer) (cfg : Cfg) (fuel : Nat) (now : TimeVal) (hn
   | ub w => rfl
   | outOfFuel => rfl
 
-theorem pushPieces_cons (T : Tokenizer) (cfg : Cfg) (hc : cfg.pushLoops = false) (fuel : Nat) (now : TimeVal)
+/-- `pushPieces` with every piece pushed by the unchanged `tickit_term_input_push_bytes` (whatever
+    `cfg.pushLoops` says). -/
+def pushPiecesOnce (T : Tokenizer) (cfg : Cfg) (fuel : Nat) (now : TimeVal) :
+    Term T → List (List UInt8) → Outcome (Term T × List Event)
+  | tt, [] => .ok (tt, [])
+  | tt, p :: ps =>
+    match inputPushBytesOnce T cfg fuel now tt p with
+    | .ok r =>
+      match pushPiecesOnce T cfg fuel now r.1 ps with
+      | .ok r' => .ok (r'.1, r.2 ++ r'.2)
+      | .ub w => .ub w
+      | .outOfFuel => .outOfFuel
+    | .ub w => .ub w
+    | .outOfFuel => .outOfFuel
+
+theorem pushPieces_eq_once (T : Tokenizer) (cfg : Cfg) (hc : cfg.pushLoops = false) (fuel : Nat) (now : TimeVal) :
+    ∀ (ps : List (List UInt8)) (tt : Term T),
+      pushPieces T cfg fuel now tt ps = pushPiecesOnce T cfg fuel now tt ps := by
+  intro ps
+  induction ps with
+  | nil => intro tt; rfl
+  | cons p ps ih =>
+    intro tt
+    simp only [pushPieces, pushPiecesOnce, inputPushBytes, hc, Bool.false_eq_true, if_false]
+    cases inputPushBytesOnce T cfg fuel now tt p with
+    | ok r => simp only; rw [ih r.1]; cases pushPiecesOnce T cfg fuel now r.1 ps <;> rfl
+    | ub w => rfl
+    | outOfFuel => rfl
+
+theorem pushPiecesOnce_cons (T : Tokenizer) (cfg : Cfg) (fuel : Nat) (now : TimeVal)
     (tt : Term T) (p : List UInt8) (ps : List (List UInt8)) :
-    pushPieces T cfg fuel now tt (p :: ps) =
+    pushPiecesOnce T cfg fuel now tt (p :: ps) =
       match pushSem T cfg fuel now tt p with
       | .ok r =>
-        match pushPieces T cfg fuel now r.1 ps with
+        match pushPiecesOnce T cfg fuel now r.1 ps with
         | .ok r' => .ok (r'.1, r.2 ++ r'.2)
         | .ub w => .ub w
         | .outOfFuel => .outOfFuel
       | .ub w => .ub w
       | .outOfFuel => .outOfFuel := by
-  simp only [pushPieces, inputPushBytes, hc, inputPushBytesOnce_eq, Bool.false_eq_true, if_false]
-  cases pushSem T cfg fuel now tt p with
-  | ok r => simp only; cases pushPieces T cfg fuel now r.1 ps <;> rfl
-  | ub w => rfl
-  | outOfFuel => rfl
+  simp only [pushPiecesOnce, inputPushBytesOnce_eq]
 
-theorem pushPieces_obs (T : Tokenizer) (cfg : Cfg) (hc : cfg.pushLoops = false) (fuel : Nat) (now : TimeVal)
+theorem pushPiecesOnce_obs (T : Tokenizer) (cfg : Cfg) (fuel : Nat) (now : TimeVal)
     (hnow : 0 ≤ now.sec) :
     ∀ (ps : List (List UInt8)) (p : List UInt8) (tt : Term T),
-      (pushPieces T cfg fuel now tt (p :: ps)).map pushObs = semObs T cfg fuel tt (feedPieces T tt.tk p ps) := by
+      (pushPiecesOnce T cfg fuel now tt (p :: ps)).map pushObs = semObs T cfg fuel tt (feedPieces T tt.tk p ps) := by
   intro ps
   induction ps with
   | nil =>
     intro p tt
     have h := pushSem_obs T cfg fuel now hnow tt p
-    rw [pushPieces_cons T cfg hc]
+    rw [pushPiecesOnce_cons T cfg]
     simp only [feedPieces]
     rw [← h]
     cases pushSem T cfg fuel now tt p with
-    | ok r => simp [Outcome.map, pushObs, pushPieces]
+    | ok r => simp [Outcome.map, pushObs, pushPiecesOnce]
     | ub w => rfl
     | outOfFuel => rfl
   | cons q qs ih =>
     intro p tt
-    rw [pushPieces_cons T cfg hc]
+    rw [pushPiecesOnce_cons T cfg]
     simp only [feedPieces]
     unfold semObs
     simp only
@@ -1013,7 +1038,7 @@ theorem pushPieces_obs (T : Tokenizer) (cfg : Cfg) (hc : cfg.pushLoops = false) 
       have hh : tt1.held = x.1 := by rw [← htt1]
       unfold semObs at this
       rw [htk, hh] at this
-      cases hp : pushPieces T cfg fuel now tt1 (q :: qs) with
+      cases hp : pushPiecesOnce T cfg fuel now tt1 (q :: qs) with
       | ok r' =>
         rw [hp] at this
         cases hr2 : runKeys cfg fuel x.1 (feedPieces T (T.feed tt.tk p).2.2 q qs).1 with
@@ -1038,6 +1063,319 @@ theorem pushPieces_obs (T : Tokenizer) (cfg : Cfg) (hc : cfg.pushLoops = false) 
         | outOfFuel => rfl
     | ub w => rfl
     | outOfFuel => rfl
+
+theorem pushPieces_obs (T : Tokenizer) (cfg : Cfg) (hc : cfg.pushLoops = false) (fuel : Nat) (now : TimeVal)
+    (hnow : 0 ≤ now.sec) (ps : List (List UInt8)) (p : List UInt8) (tt : Term T) :
+    (pushPieces T cfg fuel now tt (p :: ps)).map pushObs = semObs T cfg fuel tt (feedPieces T tt.tk p ps) := by
+  rw [pushPieces_eq_once T cfg hc]
+  exact pushPiecesOnce_obs T cfg fuel now hnow ps p tt
+
+/-! ### the repaired push loop as a chunking -/
+
+/-- The chunks one call of the repaired `tickit_term_input_push_bytes` hands to the tokenizer, and the
+    tokenizer state afterwards; `none`: the loop stalled (the tokenizer took nothing although bytes were
+    left — its buffer is full of an unfinished sequence — and the rest was dropped). -/
+def loopChunks (T : Tokenizer) : Nat → T.σ → List UInt8 → Option (List (List UInt8) × T.σ)
+  | 0, _, _ => none
+  | n + 1, s, bytes =>
+    if bytes.length - min (T.push s bytes).2 bytes.length = 0 then
+      some ([bytes], (T.drain (T.push s bytes).1).2.2)
+    else if min (T.push s bytes).2 bytes.length = 0 then none
+    else
+      match loopChunks T n (T.drain (T.push s bytes).1).2.2 (bytes.drop (min (T.push s bytes).2 bytes.length)) with
+      | some r => some (bytes.take (min (T.push s bytes).2 bytes.length) :: r.1, r.2)
+      | none => none
+
+/-- … of a sequence of calls. -/
+def runChunks (T : Tokenizer) : T.σ → List (List UInt8) → Option (List (List UInt8) × T.σ)
+  | s, [] => some ([], s)
+  | s, p :: ps =>
+    match loopChunks T (p.length + 1) s p with
+    | some r =>
+      match runChunks T r.2 ps with
+      | some r' => some (r.1 ++ r'.1, r'.2)
+      | none => none
+    | none => none
+
+def AcceptedList (T : Tokenizer) : T.σ → List (List UInt8) → Prop
+  | _, [] => True
+  | s, p :: ps => T.Accepts s p ∧ AcceptedList T (T.feed s p).2.2 ps
+
+def endState (T : Tokenizer) : T.σ → List (List UInt8) → T.σ
+  | s, [] => s
+  | s, p :: ps => endState T (T.feed s p).2.2 ps
+
+theorem acceptedRun_iff (T : Tokenizer) : ∀ (ps : List (List UInt8)) (s : T.σ) (p : List UInt8),
+    AcceptedRun T s p ps ↔ AcceptedList T s (p :: ps) := by
+  intro ps
+  induction ps with
+  | nil => intro s p; simp [AcceptedRun, AcceptedList]
+  | cons q qs ih => intro s p; simp only [AcceptedRun, AcceptedList, ih]
+
+theorem acceptedList_append (T : Tokenizer) : ∀ (a b : List (List UInt8)) (s : T.σ),
+    AcceptedList T s (a ++ b) ↔ AcceptedList T s a ∧ AcceptedList T (endState T s a) b := by
+  intro a
+  induction a with
+  | nil => intro b s; simp [AcceptedList, endState]
+  | cons x xs ih => intro b s; simp only [List.cons_append, AcceptedList, endState, ih, and_assoc]
+
+theorem endState_append (T : Tokenizer) : ∀ (a b : List (List UInt8)) (s : T.σ),
+    endState T s (a ++ b) = endState T (endState T s a) b := by
+  intro a
+  induction a with
+  | nil => intro b s; rfl
+  | cons x xs ih => intro b s; simp only [List.cons_append, endState, ih]
+
+/-- What `loopChunks` returns: a chunking of the bytes into pieces that are each accepted in full,
+    non-empty if the bytes are, and the state after feeding them. -/
+theorem loopChunks_spec (T : Tokenizer) (hP : T.PartialPush) :
+    ∀ (n : Nat) (s : T.σ) (bytes : List UInt8) (cs : List (List UInt8)) (e : T.σ),
+      loopChunks T n s bytes = some (cs, e) →
+      cs.flatten = bytes ∧ cs ≠ [] ∧ (bytes ≠ [] → ∀ c ∈ cs, c ≠ []) ∧ AcceptedList T s cs ∧ e = endState T s cs := by
+  intro n
+  induction n with
+  | zero => intro s bytes cs e h; simp [loopChunks] at h
+  | succ n ih =>
+    intro s bytes cs e h
+    have hle := hP.le s bytes
+    have hmin : min (T.push s bytes).2 bytes.length = (T.push s bytes).2 := Nat.min_eq_left hle
+    unfold loopChunks at h
+    rw [hmin] at h
+    split at h
+    · rename_i hall
+      cases h
+      have hfull : (T.push s bytes).2 = bytes.length := by omega
+      refine ⟨by simp, by simp, ?_, ?_, ?_⟩
+      · intro hne c hc
+        simp only [List.mem_singleton] at hc
+        subst hc; exact hne
+      · exact ⟨hfull, trivial⟩
+      · simp [endState, Tokenizer.feed]
+    · rename_i hnall
+      split at h
+      · cases h
+      · rename_i hpos
+        cases hr : loopChunks T n (T.drain (T.push s bytes).1).2.2 (bytes.drop (T.push s bytes).2) with
+        | none => rw [hr] at h; cases h
+        | some r =>
+          rw [hr] at h
+          cases h
+          obtain ⟨hflat, _, hne', hacc, hend⟩ := ih _ _ r.1 r.2 (by rw [hr])
+          have htake := hP.take s bytes
+          have hfeed : (T.feed s (bytes.take (T.push s bytes).2)).2.2 = (T.drain (T.push s bytes).1).2.2 := by
+            unfold Tokenizer.feed; rw [htake]
+          have hacc1 : T.Accepts s (bytes.take (T.push s bytes).2) := by
+            unfold Tokenizer.Accepts
+            rw [htake, List.length_take]
+            omega
+          refine ⟨?_, by simp, ?_, ?_, ?_⟩
+          · simp only [List.flatten_cons, hflat, List.take_append_drop]
+          · intro _ c hc
+            simp only [List.mem_cons] at hc
+            rcases hc with rfl | hc
+            · intro h0
+              have := congrArg List.length h0
+              simp only [List.length_take, List.length_nil] at this
+              omega
+            · apply hne' _ c hc
+              intro h0
+              have := congrArg List.length h0
+              simp only [List.length_drop, List.length_nil] at this
+              omega
+          · exact ⟨hacc1, by rw [hfeed]; exact hacc⟩
+          · simp only [endState, hfeed]; exact hend
+
+theorem runChunks_spec (T : Tokenizer) (hP : T.PartialPush) :
+    ∀ (ps : List (List UInt8)) (s : T.σ) (cs : List (List UInt8)) (e : T.σ),
+      runChunks T s ps = some (cs, e) →
+      cs.flatten = ps.flatten ∧ ((∀ p ∈ ps, p ≠ []) → ∀ c ∈ cs, c ≠ []) ∧ (ps ≠ [] → cs ≠ []) ∧
+        AcceptedList T s cs ∧ e = endState T s cs := by
+  intro ps
+  induction ps with
+  | nil => intro s cs e h; simp [runChunks] at h; obtain ⟨rfl, rfl⟩ := h; simp [AcceptedList, endState]
+  | cons p ps ih =>
+    intro s cs e h
+    unfold runChunks at h
+    cases hl : loopChunks T (p.length + 1) s p with
+    | none => rw [hl] at h; cases h
+    | some r =>
+      rw [hl] at h
+      simp only at h
+      cases hr : runChunks T r.2 ps with
+      | none => rw [hr] at h; cases h
+      | some r' =>
+        rw [hr] at h
+        cases h
+        obtain ⟨hf1, hne1, hnn1, ha1, he1⟩ := loopChunks_spec T hP _ s p r.1 r.2 (by rw [hl])
+        obtain ⟨hf2, hnn2, _, ha2, he2⟩ := ih r.2 r'.1 r'.2 (by rw [hr])
+        refine ⟨by simp [hf1, hf2], ?_, ?_, ?_, ?_⟩
+        · intro hall c hc
+          simp only [List.mem_append] at hc
+          rcases hc with hc | hc
+          · exact hnn1 (hall p (by simp)) c hc
+          · exact hnn2 (fun q hq => hall q (by simp [hq])) c hc
+        · intro _ h0
+          simp only [List.append_eq_nil_iff] at h0
+          exact hne1 h0.1
+        · rw [acceptedList_append]; exact ⟨ha1, by rw [← he1]; exact ha2⟩
+        · rw [endState_append, ← he1]; exact he2
+
+theorem inputPushBytesOnce_tk (T : Tokenizer) (cfg : Cfg) (fuel : Nat) (now : TimeVal) (tt : Term T)
+    (b : List UInt8) (r : Term T × List Event) (h : inputPushBytesOnce T cfg fuel now tt b = .ok r) :
+    r.1.tk = (T.feed tt.tk b).2.2 := by
+  rw [inputPushBytesOnce_eq] at h
+  unfold pushSem at h
+  cases hr : runKeys cfg fuel tt.held (T.feed tt.tk b).1 with
+  | ok x => rw [hr] at h; cases h; rfl
+  | ub w => rw [hr] at h; cases h
+  | outOfFuel => rw [hr] at h; cases h
+
+/-- One call of the repaired push = the unchanged push applied to each chunk in turn. -/
+theorem inputPushBytesLoop_eq (T : Tokenizer) (hP : T.PartialPush) (cfg : Cfg) (fuel : Nat) (now : TimeVal) :
+    ∀ (n : Nat) (tt : Term T) (bytes : List UInt8) (cs : List (List UInt8)) (e : T.σ),
+      loopChunks T n tt.tk bytes = some (cs, e) →
+      inputPushBytesLoop T cfg fuel now n tt bytes = pushPiecesOnce T cfg fuel now tt cs := by
+  intro n
+  induction n with
+  | zero => intro tt bytes cs e h; simp [loopChunks] at h
+  | succ n ih =>
+    intro tt bytes cs e h
+    have hle := hP.le tt.tk bytes
+    have hmin : min (T.push tt.tk bytes).2 bytes.length = (T.push tt.tk bytes).2 := Nat.min_eq_left hle
+    unfold loopChunks at h
+    unfold inputPushBytesLoop
+    simp only
+    rw [hmin] at h ⊢
+    split at h
+    · rename_i hall
+      cases h
+      have hfull : (T.push tt.tk bytes).2 = bytes.length := by omega
+      have : getKeys T cfg fuel now { tt with tk := (T.push tt.tk bytes).1 } =
+          inputPushBytesOnce T cfg fuel now tt bytes := rfl
+      rw [this]
+      simp only [pushPiecesOnce]
+      cases inputPushBytesOnce T cfg fuel now tt bytes with
+      | ok r => simp [hall]
+      | ub w => rfl
+      | outOfFuel => rfl
+    · rename_i hnall
+      split at h
+      · cases h
+      · rename_i hpos
+        cases hr : loopChunks T n (T.drain (T.push tt.tk bytes).1).2.2 (bytes.drop (T.push tt.tk bytes).2) with
+        | none => rw [hr] at h; cases h
+        | some r =>
+          rw [hr] at h
+          cases h
+          have htake := hP.take tt.tk bytes
+          have hstep : getKeys T cfg fuel now { tt with tk := (T.push tt.tk bytes).1 } =
+              inputPushBytesOnce T cfg fuel now tt (bytes.take (T.push tt.tk bytes).2) := by
+            unfold inputPushBytesOnce; rw [htake]
+          rw [hstep]
+          simp only [pushPiecesOnce]
+          cases hk : inputPushBytesOnce T cfg fuel now tt (bytes.take (T.push tt.tk bytes).2) with
+          | ok x =>
+            simp only
+            have htk := inputPushBytesOnce_tk T cfg fuel now tt _ x hk
+            have hfeed : (T.feed tt.tk (bytes.take (T.push tt.tk bytes).2)).2.2 = (T.drain (T.push tt.tk bytes).1).2.2 := by
+              unfold Tokenizer.feed; rw [htake]
+            rw [if_neg (by omega)]
+            rw [ih x.1 _ r.1 r.2 (by rw [htk, hfeed, hr])]
+            cases pushPiecesOnce T cfg fuel now x.1 r.1 <;> rfl
+          | ub w => rfl
+          | outOfFuel => rfl
+
+theorem pushPiecesOnce_append (T : Tokenizer) (cfg : Cfg) (fuel : Nat) (now : TimeVal) :
+    ∀ (a b : List (List UInt8)) (tt : Term T),
+      pushPiecesOnce T cfg fuel now tt (a ++ b) =
+        match pushPiecesOnce T cfg fuel now tt a with
+        | .ok r =>
+          match pushPiecesOnce T cfg fuel now r.1 b with
+          | .ok r' => .ok (r'.1, r.2 ++ r'.2)
+          | .ub w => .ub w
+          | .outOfFuel => .outOfFuel
+        | .ub w => .ub w
+        | .outOfFuel => .outOfFuel := by
+  intro a
+  induction a with
+  | nil =>
+    intro b tt
+    simp only [List.nil_append, pushPiecesOnce]
+    cases pushPiecesOnce T cfg fuel now tt b <;> simp
+  | cons x xs ih =>
+    intro b tt
+    simp only [List.cons_append, pushPiecesOnce]
+    cases inputPushBytesOnce T cfg fuel now tt x with
+    | ok r =>
+      simp only
+      rw [ih b r.1]
+      cases pushPiecesOnce T cfg fuel now r.1 xs with
+      | ok r' =>
+        simp only
+        cases pushPiecesOnce T cfg fuel now r'.1 b <;> simp
+      | ub w => rfl
+      | outOfFuel => rfl
+    | ub w => rfl
+    | outOfFuel => rfl
+
+theorem pushPiecesOnce_tk (T : Tokenizer) (cfg : Cfg) (fuel : Nat) (now : TimeVal) :
+    ∀ (cs : List (List UInt8)) (tt : Term T) (r : Term T × List Event),
+      pushPiecesOnce T cfg fuel now tt cs = .ok r → r.1.tk = endState T tt.tk cs := by
+  intro cs
+  induction cs with
+  | nil => intro tt r h; simp only [pushPiecesOnce] at h; cases h; rfl
+  | cons c cs ih =>
+    intro tt r h
+    simp only [pushPiecesOnce] at h
+    cases hk : inputPushBytesOnce T cfg fuel now tt c with
+    | ok x =>
+      rw [hk] at h
+      simp only at h
+      cases hr : pushPiecesOnce T cfg fuel now x.1 cs with
+      | ok y =>
+        rw [hr] at h
+        cases h
+        simp only [endState]
+        rw [← inputPushBytesOnce_tk T cfg fuel now tt c x hk]
+        exact ih x.1 y hr
+      | ub w => rw [hr] at h; cases h
+      | outOfFuel => rw [hr] at h; cases h
+    | ub w => rw [hk] at h; cases h
+    | outOfFuel => rw [hk] at h; cases h
+
+/-- A sequence of calls of the repaired push = the unchanged push applied to every chunk of every call. -/
+theorem pushPieces_loop_eq (T : Tokenizer) (hP : T.PartialPush) (cfg : Cfg) (hc : cfg.pushLoops = true)
+    (fuel : Nat) (now : TimeVal) :
+    ∀ (ps : List (List UInt8)) (tt : Term T) (cs : List (List UInt8)) (e : T.σ),
+      runChunks T tt.tk ps = some (cs, e) →
+      pushPieces T cfg fuel now tt ps = pushPiecesOnce T cfg fuel now tt cs := by
+  intro ps
+  induction ps with
+  | nil => intro tt cs e h; simp [runChunks] at h; obtain ⟨rfl, rfl⟩ := h; rfl
+  | cons p ps ih =>
+    intro tt cs e h
+    unfold runChunks at h
+    cases hl : loopChunks T (p.length + 1) tt.tk p with
+    | none => rw [hl] at h; cases h
+    | some r =>
+      rw [hl] at h
+      simp only at h
+      cases hr : runChunks T r.2 ps with
+      | none => rw [hr] at h; cases h
+      | some r' =>
+        rw [hr] at h
+        cases h
+        simp only [pushPieces, inputPushBytes, hc, if_true]
+        rw [inputPushBytesLoop_eq T hP cfg fuel now _ tt p r.1 r.2 (by rw [hl]), pushPiecesOnce_append]
+        obtain ⟨_, _, _, _, hend⟩ := loopChunks_spec T hP _ tt.tk p r.1 r.2 (by rw [hl])
+        cases hk : pushPiecesOnce T cfg fuel now tt r.1 with
+        | ok x =>
+          simp only
+          have htk := pushPiecesOnce_tk T cfg fuel now r.1 tt x hk
+          rw [ih x.1 r'.1 r'.2 (by rw [htk, ← hend, hr])]
+          cases pushPiecesOnce T cfg fuel now x.1 r'.1 <;> rfl
+        | ub w => rfl
+        | outOfFuel => rfl
 
 /-! ### buffer tokenizers: a lexer over the pending bytes, with a fixed capacity (what libtermkey is) -/
 
@@ -1146,6 +1484,22 @@ theorem Lexer.feed_of_accepts (L : Lexer) (cap : Nat) (s b : List UInt8) (h : b.
     simp only [Lexer.tokenizer]
     rw [List.take_of_length_le h]
   rw [this]
+
+/-- Every buffer tokenizer takes a prefix. -/
+theorem Lexer.partialPush (L : Lexer) (cap : Nat) : (L.tokenizer cap).PartialPush where
+  le := by intro s b; show min b.length (cap - s.length) ≤ b.length; omega
+  take := by
+    intro s b
+    simp only [List.take_take, List.length_take]
+    have h2 : min (cap - s.length) (min b.length (cap - s.length)) = min b.length (cap - s.length) := by omega
+    have h3 : min (min (min b.length (cap - s.length)) b.length) (cap - s.length) = min b.length (cap - s.length) := by
+      omega
+    rw [h2, h3]
+    have h4 : List.take (min b.length (cap - s.length)) b = List.take (cap - s.length) b := by
+      by_cases h : b.length ≤ cap - s.length
+      · rw [Nat.min_eq_left h, List.take_of_length_le (Nat.le_refl _), List.take_of_length_le h]
+      · rw [Nat.min_eq_right (by omega)]
+    rw [h4]
 
 /-- Every buffer tokenizer obeys the law. -/
 theorem Lexer.incremental (L : Lexer) (cap : Nat) : (L.tokenizer cap).Incremental where
